@@ -608,6 +608,7 @@ class Interp(object):
         self.mod_inited = set()
         self.apply_decorators = set()    # qualified names of repository decorators to interpret
         self._decorated = {}
+        self._lru = {}                   # results of functions under functools.lru_cache / cache
         if hasattr(explorer, "interps"):
             explorer.interps.append(self)
 
@@ -853,7 +854,48 @@ class Interp(object):
             raise AbsRaise("TypeError", ("'%s' object is not callable" % type(f).__name__,))
         self.unsupported("call of %r" % (f,), node)
 
+    _MEMO_DECORATORS = {"lru_cache", "functools.lru_cache", "cache", "functools.cache"}
+
+    def _memo_decorated(self, f):
+        """True if the function carries a standard-library memoising decorator (functools.lru_cache / cache): the
+        decorated function returns the *same object* for equal arguments for as long as the process lives."""
+        node = f.node
+        hit = getattr(node, "_sa_memo", None)
+        if hit is None:
+            hit = False
+            for d in getattr(node, "decorator_list", ()):
+                dn = norm(d.func if isinstance(d, ast.Call) else d)
+                if dn in self._MEMO_DECORATORS:
+                    r = self.repo.resolve_expr(f.module, d.func if isinstance(d, ast.Call) else d) if f.module is not None else None
+                    if not (r and r[0] == "func"):
+                        hit = True
+            try:
+                node._sa_memo = hit
+            except AttributeError:
+                pass
+        return hit
+
+    def _memo_key(self, v):
+        if isinstance(v, NTObj) or not isinstance(v, Abs):
+            try:
+                hash(v)
+            except TypeError:
+                raise AbsRaise("TypeError", ("unhashable argument of a memoised function",))
+            return (type(v).__name__, v)
+        return ("obj", id(v))
+
     def call_func(self, f, args, kwargs):
+        if getattr(f.node, "decorator_list", None) and self._memo_decorated(f):
+            full = ([f.bound] if f.bound is not None else []) + list(args)
+            key = (id(f.node), tuple(self._memo_key(x) for x in full), tuple(sorted((k, self._memo_key(v)) for k, v in kwargs.items())))
+            if key in self._lru:
+                return self._lru[key][1]
+            r = self._call_func(f, args, kwargs)
+            self._lru[key] = (full, r)       # the arguments are kept alive with the entry (identity keys)
+            return r
+        return self._call_func(f, args, kwargs)
+
+    def _call_func(self, f, args, kwargs):
         node = f.node
         if self.depth > 60:
             self.unsupported("interpreted call depth")
